@@ -912,6 +912,8 @@ class CompilerPassGenerateCode(CompilerPass):
         data.result = value_sym
 
     def handle_for(self, node: nodes.For):
+        if node.orelse:
+            raise CompilerError("An else branch of a for loop is not supported", node)
         iter_ = node.iter
         iter_data = node.iter._ndata
 
@@ -971,6 +973,10 @@ class CompilerPassGenerateCode(CompilerPass):
         data.add_end(IC10(f"{end_label}:"))
 
     def handle_while(self, node: nodes.While):
+        if node.orelse:
+            raise CompilerError(
+                "An else branch of a while loop is not supported", node
+            )
         test = node.test
         while_label, end_label = self.get_label("while", "while.end")
         data = node._ndata
